@@ -283,15 +283,25 @@ def add_tu_private_types(draw, m, ntu, cx):
     if draw(st.booleans()):
         m["priv_in_header"] = True       # the variants are selected by a macro inside the shared header
     for g in range(ngroups):
-        kind = _weighted(draw, [("struct", 6), ("enum", 2), ("union", 1)])
+        kind = _weighted(draw, [("struct", 6), ("enum", 2), ("union", 1), ("typedef", 2)])
         cname = "pv%d" % g
         tus = sorted(set([0, 1] + [draw(st.integers(0, ntu - 1)) for _ in range(draw(st.integers(0, 2)))]))
         same_size_bias = draw(st.booleans())
         prefix_pair = kind in ("struct", "union") and draw(st.integers(0, 2)) == 0
+        # variants that differ in nothing but the widths of their bit-fields (same names, same types, same size)
+        bitfield_pair = kind == "struct" and not prefix_pair and draw(st.integers(0, 3)) == 0
         first_members = None
         for k in tus:
             mname = "%s_tu%d" % (cname, k)
-            if kind == "enum":
+            if kind == "typedef":
+                # `typedef PVn_BASE pvn;` on ONE line of the shared header, PVn_BASE defined differently by every translation
+                # unit: same name, same file:line:column, different underlying types
+                tds = [["b", "int"], ["b", "long"], ["b", "unsigned int"], ["b", "double"], ["p", ["b", "char"]], ["b", "short"],
+                       ["p", ["b", "void" if False else "int"]], ["b", "unsigned long"], ["b", "float"]]
+                used = [x["type"] for x in m["types"] if x.get("cname") == cname]
+                ty = _pick(draw, [x for x in tds if x not in used])
+                t = {"kind": "typedef", "name": mname, "cname": cname, "where": "tu%d" % k, "type": ty, "same_line": True}
+            elif kind == "enum":
                 t = {"kind": "enum", "name": mname, "cname": cname, "where": "tu%d" % k,
                      "enumerators": [["%s_T%d_E%d" % (cname.upper(), k, i), v] for i, (_, v) in
                                      enumerate(enumerators(draw, cname))]}
@@ -307,6 +317,19 @@ def add_tu_private_types(draw, m, ntu, cx):
                     ms = [dict(x) for x in first_members[:draw(st.integers(1, 2))]]
                     if kind == "struct" and len(ms) == 1:
                         ms = [dict(x) for x in first_members[:2]]
+                elif bitfield_pair:
+                    bt = first_members[0]["type"] if first_members else ["b", _pick(draw, ["unsigned int", "int", "unsigned short", "unsigned long"])]
+                    cap = {"unsigned int": 32, "int": 32, "unsigned short": 16, "unsigned long": 64}[bt[1]]
+                    nbf = len(first_members) - 1 if first_members else draw(st.integers(2, 4))
+                    ws, left = [], cap
+                    for q in range(nbf):
+                        w = draw(st.integers(1, max(1, min(left - (nbf - 1 - q), cap // 2))))
+                        ws.append(w)
+                        left -= w
+                    ms = [{"name": "m%d" % q, "type": bt, "bits": ws[q]} for q in range(nbf)]
+                    ms.append({"name": "m%d" % nbf, "type": ["b", "int"], "bits": None})
+                    if first_members is None:
+                        first_members = ms
                 elif same_size_bias and first_members is not None and kind == "struct":
                     # same layout, other member types: same name, same size, different type
                     swap = {"int": "float", "float": "unsigned int", "unsigned int": "int", "long": "double", "double": "unsigned long",
